@@ -45,9 +45,10 @@ FAULTS = [
     ("user", "raise UserErr('user-msg')", "UserErr", "user-msg"),
     ("from", "raise KeyError('outer-k') from ValueError('inner-v')", "KeyError", "outer-k"),
     ("context", "try:\n    junk = 1 / 0\nexcept ZeroDivisionError:\n    raise RuntimeError('while-handling')", "RuntimeError", "while-handling"),
+    ("singleton", "raise SINGLETON_ERR", "LookupError", "one-object"),
     ("from_none", "try:\n    junk = 1 / 0\nexcept ZeroDivisionError:\n    raise RuntimeError('no-context') from None", "RuntimeError", "no-context"),
 ]
-FORMS = ["plain", "multiline", "method", "comp", "decorated", "module"]
+FORMS = ["plain", "multiline", "method", "comp", "decorated", "module"]  # + "compiled", only as the last level
 ENTRIES = ["service", "event", "state", "startup", "state_expr", "active_expr", "event_filter", "task", "callback", "wait_expr", "service_reload", "load"]
 
 HELPER = '''
@@ -72,7 +73,7 @@ def build(chain_forms, fault_level, fault_slot, fault_stmt, entry, pyscript):
     """Returns (source, entry description).  Levels are f1..fk; the fault sits in level `fault_level` (1-based), slot
     'A' (before the call) or 'B' (after it); it only fires when x == 0."""
     k = len(chain_forms)
-    lines = ["class UserErr(Exception):", "    pass", "marks = []", "import helper", "",
+    lines = ["class UserErr(Exception):", "    pass", "SINGLETON_ERR = LookupError('one-object')", "marks = []", "import helper", "",
              "def wrap(fn):", "    def inner(*a, **kw):", "        r = fn(*a, **kw)", "        return r", "    return inner", "",
              "class Holder:", "    pass", "holder = Holder()", ""]
     # define levels bottom-up so that every name exists when its caller is defined
@@ -98,6 +99,8 @@ def build(chain_forms, fault_level, fault_slot, fault_stmt, entry, pyscript):
                 body.append(f"r = {nxt}(x)")
             elif call_form == "module":
                 body.append(f"r = helper.hcall({nxt}, x)")
+            elif call_form == "compiled":
+                body.append(f"r = {nxt}(x)")
         else:
             body.append("r = x")
         if fault_level == j and fault_slot == "B":
@@ -106,6 +109,11 @@ def build(chain_forms, fault_level, fault_slot, fault_stmt, entry, pyscript):
             body.append(f"b{j} = r")
         body.append("return r")
         deco = "@wrap\n" if form == "decorated" else ""
+        if form == "compiled":
+            # a natively compiled leaf whose frame keeps running after the fault (clean-up, then re-raise): the reported line is
+            # where the exception was raised, not where the frame got to
+            body = ["try:", _ind("\n".join(body[:-1])), "except Exception:", "    cleanup_a = 1", "    cleanup_b = 2", "    raise", "return r"]
+            deco = "@pyscript_compile\n"
         lines.append(f"{deco}def f{j}(x):\n" + _ind("\n".join(body)))
         if form == "method":
             lines.append(f"def _m{j}(self, x):\n    return f{j}(x)\nHolder.m{j} = _m{j}" if False else
@@ -124,6 +132,7 @@ def build(chain_forms, fault_level, fault_slot, fault_stmt, entry, pyscript):
     src = re.sub(r"class Holder\d+\(Holder\):\n    def m\d+\(self, x\):\n        return f\d+\(x\)\nholder = Holder\d+\(\) if True else holder\n", "", src)
     # entry point
     if entry == "load":
+        src += "@service\ndef early_svc():\n    pass\n" if pyscript else "#@service\ndef early_svc():\n    pass\n"
         src += "f1(0)\nmarks.append('loaded')\n"
     elif not pyscript:
         # the reference gets the same text with the decorator lines commented out, so line numbers coincide
@@ -172,7 +181,7 @@ def reference_frames(src, helper_path, script_path, entry):
     helper = types.ModuleType("helper")
     exec(compile(HELPER, helper_path, "exec"), helper.__dict__)  # noqa: S102
     sys.modules["helper"] = helper
-    g = {"__name__": "hello", "task": types.SimpleNamespace(wait_until=lambda **kw: None)}
+    g = {"__name__": "hello", "task": types.SimpleNamespace(wait_until=lambda **kw: None), "pyscript_compile": lambda fn: fn}
     exc = None
     try:
         try:
@@ -331,6 +340,8 @@ def run_case(case, legacy):
         if entry == "load":
             if w.ctx("file.hello") is not None:
                 return {"kind": "faulty-file-loaded"}, obs
+            if w.hass.services.has_service("pyscript", "early_svc"):
+                return {"kind": "service-of-unloaded-file-registered"}, obs
             if w.ctx("file.other") is None:
                 return {"kind": "other-file-not-loaded"}, obs
         else:
@@ -340,6 +351,13 @@ def run_case(case, legacy):
                 return {"kind": "trigger-dead-after-fault", "observed": marks}, obs
             if entry == "callback" and (("cb2", 0) not in marks or ("cb2", 1) not in marks):
                 return {"kind": "later-done-callback-skipped", "observed": marks}, obs
+            if entry != "startup":
+                # the same fault a second time is a second report (also when it is the very same exception object)
+                n1 = len(w.logs.records)
+                occurrence(0)
+                again = [r for r in w.logs.records[n1:] if r[1] == "ERROR" and (fault[2] in r[2] or ref_exc in r[2])]
+                if len(again) != 1:
+                    return {"kind": "repeated-fault-not-reported-once", "expected": 1, "observed": [r[0] for r in again]}, obs
         w.fire("ev_other", {})
         w.settle()
         if w.g("file.other") is None or "other-ran" not in w.g("file.other")["omarks"]:
@@ -431,10 +449,12 @@ def cases(tier):
     out = []
     faults = [f[0] for f in FAULTS]
     if tier == "quick":
-        chains = [("plain",), ("plain", "multiline", "method"), ("decorated", "comp", "module"), ("method", "decorated", "plain", "module", "comp")]
+        chains = [("plain",), ("plain", "multiline", "method"), ("decorated", "comp", "module"), ("method", "decorated", "plain", "module", "comp"),
+                  ("plain", "compiled"), ("compiled",)]
     else:
         chains = [("plain",)] + [tuple(p) for p in itertools.permutations(FORMS, 3)][::4] + \
-                 [("plain", "multiline", "method", "comp", "decorated"), ("module", "decorated", "comp", "method", "multiline"),
+                 [("plain", "compiled"), ("compiled",), ("method", "module", "compiled"),
+                  ("plain", "multiline", "method", "comp", "decorated"), ("module", "decorated", "comp", "method", "multiline"),
                   ("method", "decorated", "plain", "module", "comp")]
     for forms in chains:
         k = len(forms)
